@@ -14,8 +14,10 @@ ITER_WRAPPERS = ("iter", "adapt", "enum", "rev")
 
 
 class Built:
-    def __init__(self, source, value, fallible, every_item, form, site=None):
+    def __init__(self, source, value, fallible, every_item, form, site=None, dropped_when=None):
         self.source, self.value, self.fallible, self.every_item, self.form, self.site = source, value, fallible, every_item, form, site
+        # for filtering constructions: the tests under whose true edge an item is dropped, [(callee, [arg terms])]; None = unknown
+        self.dropped_when = dropped_when
 
     def __repr__(self):
         return f"Built({self.form}: source={self.source} value={self.value} fallible={self.fallible} every_item={self.every_item})"
@@ -66,6 +68,48 @@ def _closure_value(lib, cdef, captured):
     return {subst(t, mapping) for t in co.of_local(0)}
 
 
+def _filter_map_closure(lib, cdef, captured):
+    """A filter_map closure: (kept value terms, [(test callee, arg terms)] under which None is returned) or None if some
+    None is returned unconditionally / under an unrecognised condition."""
+    from .analysis import edge_dominates
+    cb = lib.fn(cdef)
+    if cb is None:
+        return None
+    co = Origins(cb, lib)
+    br = Branches(cb, co)
+    mapping = {("param", 2): ELEM}
+    for i, ops in enumerate(captured):
+        ops = frozenset(ops)
+        mapping[("field", ("closure_env",), str(i))] = next(iter(ops)) if len(ops) == 1 else ("oneof", ops)
+    kept = set()
+    tests = []
+    for bb, i, st in cb.stmts():
+        if not (st["k"] == "assign" and st["place"]["l"] == 0 and not st["place"]["p"]):
+            continue
+        rv = st["rv"]
+        if rv["k"] == "agg" and rv.get("adt") == "std::option::Option" and rv["variant"] == "Some":
+            kept |= {subst(t, mapping) for t in co.of_operand(rv["ops"][0])}
+        elif rv["k"] == "agg" and rv.get("adt") == "std::option::Option" and rv["variant"] == "None":
+            found = False
+            for sb, sw in br.switches():
+                be = br.bool_edges(sb)
+                if not be:
+                    continue
+                for c in br.cond(sb):
+                    neg = False
+                    while c[0] == "un" and c[1] == "Not":
+                        c = c[2]
+                        neg = not neg
+                    if c[0] == "call" and edge_dominates(cb, (sb, be[1] if neg else be[0]), bb):
+                        tests.append((c[1], [frozenset(subst(x, mapping) for x in a) for a in c[2]]))
+                        found = True
+            if not found:
+                return None
+        else:
+            return None
+    return kept, tests
+
+
 def _strip_result(terms):
     """(terms with Ok(..)/`?` wrappers removed, whether any was present)."""
     out = set()
@@ -105,6 +149,20 @@ def describe_vector(lib, body, o, terms):
                                 out.append(Built({base}, {("call", f[1], (frozenset({ELEM}),), None)}, False, True, "collect(map fn)", t[3] if len(t) > 3 else None))
                             else:
                                 ok = False
+                elif it[0] == "call" and it[1] == "std::iter::Iterator::filter_map" and len(it[2]) == 2:
+                    for src in it[2][0]:
+                        base = iter_base(src)
+                        if base is None:
+                            ok = False
+                            continue
+                        for f in it[2][1]:
+                            r = _filter_map_closure(lib, f[1], f[2]) if f[0] == "closure" else None
+                            if r is None:
+                                ok = False
+                                continue
+                            kept, tests = r
+                            val, fall = _strip_result(kept)
+                            out.append(Built({base}, val, fall, False, "collect(filter_map)", t[3] if len(t) > 3 else None, dropped_when=tests))
                 elif it[0] in ITER_WRAPPERS:
                     base = iter_base(it)
                     if base is None:
